@@ -116,6 +116,19 @@ def run(res, replay=None):
         else:
             if db.cmd("pins") != base:
                 res.oracle_failures.append(("# session:\n" + "\n".join(db.log[-20:]), "pin vector drifted over 150 joins"))
+        # build side larger than one temporary page (fixed defect F-HJ-TMPPAGE: the statement panicked and kept a pin)
+        db.cmd("mktable j3 a:i:n,b:s:n")
+        for i in range(260):
+            db.cmd("rawinsert j3 i:%d s:%s" % (i % 6, (b"w" * (20 + i % 150)).hex()))
+        base = db.cmd("pins")
+        for sql in ("SELECT j3.b, j2.y FROM j3 JOIN j2 ON j3.a = j2.x;", "SELECT j2.y, j3.b FROM j2 JOIN j3 ON j2.x = j3.a WHERE j3.a >= 2;"):
+            shape = db.cmd("plan " + sql)
+            out = db.sql(sql)
+            res.evaluations += 1
+            after = db.cmd("pins")
+            if not out.startswith("ok:") or after != base:
+                res.oracle_failures.append(("# session:\n" + "\n".join(l[:200] for l in db.log[-12:]), "join with a build side of several temporary pages: outcome %s, plan %s, pins before %s | after %s" % (out[:60], shape, base, after)))
+                break
     finally:
         db.destroy()
     res.distribution = {"classes": classes}
